@@ -1,7 +1,7 @@
 """Developer helper: build one unit and summarise Verus' verdict per function."""
 import sys, os, json
 sys.path.insert(0, os.path.dirname(os.path.dirname(os.path.abspath(__file__))))
-from gv.build import build_storage_unit
+from gv.build import build_storage_unit, build_world_unit, build_templates_unit, build_macros_unit
 from gv.extract import Cfg
 from gv import verus
 
@@ -10,7 +10,13 @@ def main():
     feats = [f for f in sys.argv[2].split(',') if f] if len(sys.argv) > 2 else []
     dbg = (sys.argv[3] == 'dbg') if len(sys.argv) > 3 else True
     out = os.environ.get('GV_OUT', '/tmp/vtest/gen')
-    g = build_storage_unit(Cfg(feats, dbg), n, out)
+    unit = os.environ.get('GV_UNIT', 'storage')
+    if unit == 'world':
+        g = build_world_unit(Cfg(feats, dbg), out)
+    elif unit == 'templates':
+        g = build_templates_unit(Cfg(feats, dbg), n, out)
+    else:
+        g = build_storage_unit(Cfg(feats, dbg), n, out)
     r = verus.run(g.path)
     print('%s: verified=%d errors=%d wall=%.1fs smt=%dms crashed=%s' % (g.path, r.verified, r.errors, r.wall_s, r.smt_ms, r.crashed))
     byfn = {}
